@@ -4,6 +4,7 @@ import (
 	"fmt"
 	"go/token"
 	"go/types"
+	"sort"
 	"strings"
 
 	"golang.org/x/tools/go/ssa"
@@ -252,6 +253,10 @@ func (c *Ctx) ruleM3() {
 							reads = true
 						}
 					})
+					// the wrapper may load the cache first and then ask the reader of the marker
+					if !reads && g.Pkg == f.Pkg && g.Signature.Results().Len() >= 1 && typeStr(g.Signature.Results().At(0).Type()) == "bool" {
+						reads = c.reachesStatic(g, kGetManifest.direct, 0)
+					}
 					if reads && call.Value() != nil {
 						presence = append(presence, call)
 					}
@@ -323,6 +328,9 @@ func (c *Ctx) ruleM3() {
 				continue
 			}
 			n++
+			if name == "Create" {
+				c.markerDirectories(f, kGetManifest, kPutManifest)
+			}
 			isPresence := func(in ssa.Instruction) bool {
 				for _, p := range presence {
 					if in == ssa.Instruction(p) {
@@ -489,4 +497,74 @@ func (c *Ctx) ruleD2() {
 	}
 	c.floor("D2", "document-store Delete", n, 1)
 	_ = fmt.Sprint
+}
+
+// markerDirectories (M3, third clause): the marker is looked for where it is written. In the
+// function that tests the local-presence marker and writes it, every cache the marker is read
+// from or written to is loaded with the same directory (origins compared as in G10). Looked
+// for under the per-database Directory option but written under the instance directory, a
+// second Create of the same database is accepted instead of refused.
+func (c *Ctx) markerDirectories(f *ssa.Function, kGet, kPut *siteKind) {
+	touchesMarker := func(g *ssa.Function) bool {
+		return g != nil && g.Blocks != nil && (c.reachesStatic(g, kGet.direct, 0) || c.reachesStatic(g, kPut.direct, 0))
+	}
+	createsStore := func(g *ssa.Function) bool {
+		return c.reachesStatic(g, func(cc ssa.CallInstruction) bool {
+			return !cc.Common().IsInvoke() && cc.Common().StaticCallee() == nil && strings.HasSuffix(typeStr(cc.Common().Value.Type()), "iface.StoreConstructor")
+		}, 0)
+	}
+	dirs := map[string]token.Pos{}
+	addLoads := func(call ssa.CallInstruction, g *ssa.Function) {
+		nb := map[ssa.Value]ssa.Value{}
+		for i, a := range call.Common().Args {
+			if i < len(g.Params) {
+				nb[g.Params[i]] = a
+			}
+		}
+		for _, l := range c.cacheCallsFrom(g, "Load", nb, 1) {
+			dirs[l.dir] = call.Pos()
+		}
+	}
+	var markerCalls []ssa.CallInstruction
+	eachCall(f, func(call ssa.CallInstruction) {
+		g := call.Common().StaticCallee()
+		if g == nil || g.Blocks == nil || g.Pkg != f.Pkg || createsStore(g) {
+			return
+		}
+		if touchesMarker(g) {
+			markerCalls = append(markerCalls, call)
+			addLoads(call, g)
+		}
+	})
+	// caches loaded here and handed to a function that touches the marker
+	eachCall(f, func(call ssa.CallInstruction) {
+		g := call.Common().StaticCallee()
+		if g == nil || g.Blocks == nil || g.Pkg != f.Pkg || call.Value() == nil || touchesMarker(g) || createsStore(g) {
+			return
+		}
+		if len(c.cacheCallsFrom(g, "Load", map[ssa.Value]ssa.Value{}, 1)) == 0 {
+			return
+		}
+		d := derived([]ssa.Value{call.Value()}, flowOpts{})
+		for _, mc := range markerCalls {
+			for _, a := range mc.Common().Args {
+				if d[a] {
+					addLoads(call, g)
+				}
+			}
+		}
+	})
+	cons := fnKey(f) + "#marker-read-where-written"
+	if len(dirs) <= 1 {
+		c.ok("M3", cons, f.Pos(), "the caches the local-presence marker is read from and written to are loaded with one and the same directory")
+		return
+	}
+	var ds []string
+	var at token.Pos
+	for d, p := range dirs {
+		ds = append(ds, d)
+		at = p
+	}
+	sort.Strings(ds)
+	c.bad("M3", cons, at, "the local-presence marker is looked for and written in caches loaded with different directories ("+strings.Join(ds, " vs ")+"): when the two differ — the per-database Directory option — the marker is written in one place and looked for in another, and a second Create of the same database is accepted instead of refused")
 }
